@@ -43,9 +43,21 @@ func TestVerifC17HRR(t *testing.T) {
 	st := vfNewStats(t, "C17")
 	rapid.Check(t, func(rt *rapid.T) {
 		src := vfGenTLS13Src(rt)
+		var mod func(*Config)
+		if rapid.IntRange(0, 7).Draw(rt, "golang") == 0 {
+			// HelloGolang through a UConn: the hello is built by crypto/tls' own code and marshalled lazily, the retry is
+			// handled by the same state machine; optionally with the application's own curve preferences
+			src = vfClientSrc{Kind: "golang", Name: "HelloGolang", ID: HelloGolang}
+			if rapid.Bool().Draw(rt, "golang_curves") {
+				cp := rapid.SampledFrom([][]CurveID{{X25519, CurveP256, CurveP384}, {CurveP256, X25519}, {X25519MLKEM768, X25519, CurveP521}}).Draw(rt, "golang_curveprefs")
+				mod = func(c *Config) { c.CurvePreferences = cp }
+				src.Name += fmt.Sprintf("(CurvePreferences=%v)", cp)
+			}
+			st.Class("source:HelloGolang")
+		}
 		sni := vfGenDNSName(rt, "sni")
 		st.Eval()
-		p, err := vfPrepareClient(src, sni, rapid.Uint64().Draw(rt, "randseed"), nil)
+		p, err := vfPrepareClient(src, sni, rapid.Uint64().Draw(rt, "randseed"), mod)
 		if err != nil {
 			st.Violation(rt, "%s: %v", src, err)
 		}
